@@ -426,7 +426,8 @@ int ZCK_PUBLIC_API zck_validate_data_checksum(zckCtx *zck) {
     char buf[BUF_SIZE] = {0};
     zckChunk *idx = zck->index.first;
     zck_log(ZCK_LOG_DEBUG, "Checking full hash");
-    while(idx) {
+    bool incomplete = false;
+    while(idx && !incomplete) {
         size_t to_read = idx->comp_length;
         while(to_read > 0) {
             size_t rb = BUF_SIZE;
@@ -434,15 +435,21 @@ int ZCK_PUBLIC_API zck_validate_data_checksum(zckCtx *zck) {
                 rb = to_read;
             /* A short read means the file ends before the data does; don't
              * hash whatever the buffer still holds from the last round */
-            if(read_data(zck, buf, rb) != (ssize_t)rb)
-                return 0;
+            if(read_data(zck, buf, rb) != (ssize_t)rb) {
+                incomplete = true;
+                break;
+            }
             if(!hash_update(zck, &(zck->check_full_hash), buf, rb))
                 return 0;
             to_read -= rb;
         }
         idx = idx->next;
     }
-    int ret = validate_file(zck, ZCK_LOG_WARNING);
+    /* Whatever the verdict, leave the file position and the running data
+     * checksum where a read started after this call expects them */
+    int ret = 0;
+    if(!incomplete)
+        ret = validate_file(zck, ZCK_LOG_WARNING);
     if(!seek_data(zck, zck->data_offset, SEEK_SET))
         return 0;
     if(!hash_init(zck, &(zck->check_full_hash), &(zck->hash_type)))
